@@ -637,6 +637,56 @@ harnesses! {
         forget(r);
     }
 
+    // a ramped change immediately replaced by a stepped change to the same ratio: the step takes effect
+    // from the first frame of the next chunk, exactly as for an instance that only received the step
+    #[kani::unwind(16)]
+    fn c06_sfo_ramp_then_step(nd) {
+        probe::reset_flags();
+        let mk = || SincFixedOut::<f64>::new_with_interpolator(1.0, 2.0, SincInterpolationType::Linear, probe::boxed64(2, 2), 4, 1).unwrap();
+        let (mut a, mut b) = (mk(), mk());
+        check!(a.set_resample_ratio(0.5, true).is_ok() && a.set_resample_ratio(0.5, false).is_ok()
+            && b.set_resample_ratio(0.5, false).is_ok(), "C12.abs_iff[base]");
+        check!(a.input_frames_next() == b.input_frames_next() && a.output_frames_next() == b.output_frames_next(),
+            "C06.step_replaces_pending_ramp[base]");
+        let n = b.input_frames_next();
+        crate::fit!(nd, n <= 16 && a.input_frames_next() <= 16, "C06.demand_fits_scenario_bound[base]");
+        let mut x = [0.0f64; 16];
+        crate::drive::fill_line(&mut x[..], 0);
+        let mut oa = [SENT; 4];
+        let mut ob = [SENT; 4];
+        let ra = a.process_into_buffer(&[&x[..]], &mut [&mut oa[..]], None);
+        let rb = b.process_into_buffer(&[&x[..]], &mut [&mut ob[..]], None);
+        check!(matches!((&ra, &rb), (Ok(p), Ok(q)) if p == q), "C06.step_replaces_pending_ramp[base]");
+        let mut same = true;
+        unroll32!(i, 4, { if oa[i].to_bits() != ob[i].to_bits() { same = false; } });
+        check!(same, "C06.step_replaces_pending_ramp[base]");
+        check!(a.input_frames_next() == b.input_frames_next(), "C06.step_replaces_pending_ramp[base]");
+        forget(a); forget(b);
+    }
+    #[kani::unwind(16)]
+    fn c06_ffo_ramp_then_step(nd) {
+        let mk = || FastFixedOut::<f64>::new(1.0, 2.0, PolynomialDegree::Linear, 4, 1).unwrap();
+        let (mut a, mut b) = (mk(), mk());
+        check!(a.set_resample_ratio(0.5, true).is_ok() && a.set_resample_ratio(0.5, false).is_ok()
+            && b.set_resample_ratio(0.5, false).is_ok(), "C12.abs_iff[base]");
+        check!(a.input_frames_next() == b.input_frames_next() && a.output_frames_next() == b.output_frames_next(),
+            "C06.step_replaces_pending_ramp[base]");
+        let n = b.input_frames_next();
+        crate::fit!(nd, n <= 16 && a.input_frames_next() <= 16, "C06.demand_fits_scenario_bound[base]");
+        let mut x = [0.0f64; 16];
+        crate::drive::fill_line(&mut x[..], 0);
+        let mut oa = [SENT; 4];
+        let mut ob = [SENT; 4];
+        let ra = a.process_into_buffer(&[&x[..]], &mut [&mut oa[..]], None);
+        let rb = b.process_into_buffer(&[&x[..]], &mut [&mut ob[..]], None);
+        check!(matches!((&ra, &rb), (Ok(p), Ok(q)) if p == q), "C06.step_replaces_pending_ramp[base]");
+        let mut same = true;
+        unroll32!(i, 4, { if oa[i].to_bits() != ob[i].to_bits() { same = false; } });
+        check!(same, "C06.step_replaces_pending_ramp[base]");
+        check!(a.input_frames_next() == b.input_frames_next(), "C06.step_replaces_pending_ramp[base]");
+        forget(a); forget(b);
+    }
+
     // vacuity witness (must FAIL)
     #[kani::unwind(8)]
     fn c06_witness(nd) {
